@@ -139,5 +139,5 @@ def fuzz_variant(sub: Sub, runs: int, include=("src",)) -> Sub:
     under test instead of Hypothesis' own random search."""
     import dataclasses
     return dataclasses.replace(sub, name=sub.name + "-atheris", kind="fuzz", fuzz_runs=runs, fuzz_include=tuple(include),
-                               required_classes=(), describe=("coverage-guided (atheris/libFuzzer) search over the bytes behind the '"
+                               required_classes=(), time_budget_s=300.0, describe=("coverage-guided (atheris/libFuzzer) search over the bytes behind the '"
                                                               + sub.name + "' generator, same oracle"))
